@@ -206,7 +206,7 @@ class StrV(Val):
         return ''.join(out)
 
     def __repr__(self):
-        if self.facts is not None: return f'AbsStr<{self.ty}>({self.facts.get("name")})'
+        if self.facts is not None: return f'AbsStr<{self.ty}>({self.facts.get("name")}:{self.facts.get("parts", "")})'
         c = self.concrete()
         return ('s' + repr(c)) if c is not None else f'Str{list(self.chars)}'
 
